@@ -26,7 +26,7 @@ BOUNDS = {
     'thorough': 'additionally L=4 with chi pattern 1,2,3,2,1, SpinHalfFermionSite(None; N,Sz), spin+fermion mixed chains, '
                 'infinite unit cell 3, 4-operator fermionic terms',
 }
-OUTSIDE = ('mutinf_two_site / entanglement_entropy_segment (eigvalsh of a density matrix), TransferMatrix eigen-solves for infinite '
+OUTSIDE = ('mutinf_two_site / entanglement_entropy_segment (eigvalsh of a density matrix; decided in C07 entropy.segment / entropy.mutinf), TransferMatrix eigen-solves for infinite '
            'overlaps, MPSEnvironment with Jordan-Wigner signs taken from virtual charges (apply_JW_string_left_of_virt_leg), '
            'the eigen-decomposition inside sample_measurements(ops=...) (LAPACK on the concrete site operator; taken as given), '
            'float rounding, canonical-form mathematics')
